@@ -117,7 +117,7 @@ func refTrim(s string) string {
 	var words []string
 	var cur []rune
 	for _, r := range s {
-		if r == ' ' || r == '\t' || r == '\n' || r == '\r' || r == '\f' || r == '\v' {
+		if r == ' ' || r == '\t' || r == '\n' || r == '\r' || r == '\f' {
 			if len(cur) > 0 {
 				words = append(words, string(cur))
 				cur = nil
@@ -287,6 +287,16 @@ func init() {
 					x.Nontrivial()
 				}
 				x.Sample(func() string { return jsonText(doc) })
+			}},
+			{Name: "trim-other-spaces", Quick: sizes(3), Thorough: sizes(4), Run: func(c *explore.Chooser, x *explore.Ctx, n int) {
+				// $trim works on the ASCII whitespace set (space, tab, line feed, carriage return, form feed), inside the
+				// string and at its ends alike: other space characters (no-break space, vertical tab, em space, next
+				// line) are ordinary characters in both places
+				units := []string{"a", " ", "\t", "\u00a0", "\v", "\u2003", "\u0085"}
+				s := c16StringN(c, n, units)
+				c.Done()
+				c16Expect(x, "$trim(s)", map[string]interface{}{"s": s}, refTrim(s), false, true)
+				x.Nontrivial()
 			}},
 			{Name: "substring", Quick: sizes(3), Thorough: sizes(4), Run: func(c *explore.Chooser, x *explore.Ctx, n int) {
 				s := c16StringN(c, n, c16Sigma)
